@@ -18,22 +18,25 @@ U32MAX = 4294967295
 
 def pools(tier):
     V = A
+    # the tree of the pool's syntax-node values: nodes 3 and 4 are two different `call` nodes starting at the same position
+    calls_src = 1 + next(i for i, nm in enumerate(A.source_names()) if "s13_calls" in nm)
     full = [V.vnull(), V.vbool(True), V.vbool(False), V.vint(0), V.vint(1), V.vint(65536), V.vint(U32MAX), V.vint(U32MAX - 1),
             V.vstr(""), V.vstr("a"), V.vstr("{}"), V.vstr("{"), V.vstr("x{}y}}"), V.vstr("{{{}}}"), V.vstr("a.b"), V.vstr("é中"), V.vstr("b"), V.vstr("éé{}中{{x}}{}"),
             V.vlist(), V.vlist(V.vint(1), V.vstr("a")), V.vlist(V.vstr("a"), V.vstr("b")), V.vlist(V.vlist(V.vint(1)), V.vlist()),
             V.vlist(V.vstr(""), V.vstr("usr"), V.vstr("")), V.vlist(V.vint(1), V.vint(1), V.vint(2)), V.vlist(V.vlist(V.vint(4), V.vint(4)), V.vlist(V.vint(4))), V.vlist(V.vstr(""), V.vstr("")), V.vstr("/"), V.vstr("^$"),
             {"t": "set", "e": [V.vint(1), V.vint(2)]}, {"t": "set", "e": []}, {"t": "set", "e": [V.vstr("a"), V.vstr("b")]},
             {"t": "syn", "n": 1}, {"t": "syn", "n": 3}, {"t": "syn", "n": 4}, V.vgn(0), V.vgn(1),
-            V.vlist(V.vgn(0), {"t": "syn", "n": 1})]
+            V.vlist(V.vgn(0), {"t": "syn", "n": 1}), V.vlist({"t": "syn", "n": 3}), V.vlist({"t": "syn", "n": 4}),
+            {"t": "set", "e": [{"t": "syn", "n": 3}, {"t": "syn", "n": 4}]}, {"t": "set", "e": [V.vint(1), V.vstr("a")]}]
     core = [V.vnull(), V.vbool(True), V.vint(1), V.vint(U32MAX), V.vstr("a"), V.vstr("{}{}"), V.vstr("a{}b"), V.vstr("/"), V.vstr(""), V.vstr("^$"), V.vstr("$"), V.vstr("é{}中{}"),
             V.vlist(V.vstr("a"), V.vstr("b")), V.vlist(), {"t": "syn", "n": 3}, V.vgn(0)]
     core4 = [V.vbool(False), V.vint(2), V.vint(U32MAX), V.vstr("{}-{}-{}"), V.vstr("x"), V.vlist(V.vint(7))]
     if tier == "thorough":
-        return {"full": full, "core": full, "core4": core, "src": 3, "srcs": list(range(1, A.n_sources() + 1)), "maxlen": 4}
+        return {"full": full, "core": full, "core4": core, "src": calls_src, "srcs": list(range(1, A.n_sources() + 1)), "maxlen": 4}
     # trees for the syntax functions: the pool tree, unicode, errors and missing nodes, empty, comments, blank, deep, mixed
     names = A.source_names()
-    want = [i + 1 for i, nm in enumerate(names) if any(k in nm for k in ("s02_", "s09_", "s11_", "s12_", "s15_", "s17a_", "s17c_", "s17d_", "s17e_", "s17f_", "s17g_", "s17h_"))]
-    return {"full": full, "core": core[:13] + core[14:], "core4": core4, "src": 3, "srcs": sorted(set([3] + want)), "maxlen": 3}
+    want = [i + 1 for i, nm in enumerate(names) if any(k in nm for k in ("s02_", "s09_", "s11_", "s12_", "s15_", "s17a_", "s17c_", "s17d_", "s17e_", "s17f_", "s17g_", "s17h_", "s17i_"))]
+    return {"full": full, "core": core[:13] + core[14:], "core4": core4, "src": calls_src, "srcs": sorted(set([3, calls_src] + want)), "maxlen": 3}
 
 
 def canon(v):
